@@ -301,3 +301,14 @@ def mapPathExpression (mp : MapProb) (e : Expr) : List Res :=
   else [initial]
 
 end RtcVerif.C15
+
+namespace RtcVerif.C15
+open RtcVerif RtcVerif.Interp
+
+/-- the extracted (decoded, signed) result of a variable as knots `(own time stamp, value)` -/
+def SVar.resultKnots (v : SVar) (neg : Bool) : Knots := v.times.zip (v.signedResults neg)
+
+/-- the history of a variable seen through an alias with the given sign -/
+def signedHist (neg : Bool) (h : Knots) : Knots := if neg then negKnots h else h
+
+end RtcVerif.C15
